@@ -15,7 +15,7 @@ import (
 func init() {
 	register(&propSpec{ID: "C12", Run: checkC12,
 		Explanation: "State partition and wiring: in the group loop of RunOnce the state handed to the scan is the map entry under the same loop element's name; every cloud-group lookup uses the current group's own cloud_provider_group_name; each group's listers are built from that group's own options (label key/value; the default filter iff the name is \"default\") and stored under its own name; the NodeGroupState literal takes its lister from the entry of its own name; no function reachable from the scan body stores into a package variable, a Controller field or another group's state (store census: every store is rooted in a local, in the scanned group / its options / its provider object, or in a freshly fetched object); inside the group loop RunOnce returns only when the cloud group is missing or on *NodeNotInNodeGroup and never breaks; acted-on nodes come from the group's own lister (C09.R2).",
-		RuleText:    "R1 loop wiring, R2 cloud lookups (4 sites), R3 lister wiring, R4 store census over scan-reachable functions, R5 containment, R6 targets",
+		RuleText:    "R1 loop wiring, R2 cloud lookups (4 sites), R3 lister wiring, R4 store census over scan-reachable functions, R5 containment, R6 targets, R7 the group filters' boolean functions (a pod / node is counted for the group iff it selects / carries the group's own label; the default group iff it selects nothing)",
 		Assumptions: []string{"configuration aliasing (two groups with the same label or cloud group), metrics labels and the shared informer cache are not decided; the metamorphic 'same actions' reading follows from the partition only under determinism of the shared inputs"}})
 }
 
@@ -128,6 +128,8 @@ func checkC12(ck *Check) {
 	ck.fatalErrorCreation("C12.R5")
 	// R6
 	ck.actionTargets("C12.R6")
+	// R7 the per-group filters select exactly the group's own pods and nodes (decided as C14)
+	ck.filterPredicates(func(int) string { return "C12.R7" })
 }
 
 func (ck *Check) listerWiring(rule string) {
